@@ -403,6 +403,11 @@ var Entries = []Entry{
 		s := graph.SubgraphRemove(f.G1, f.Nodes[:1], f.Edges[1:2])
 		return graphEnc(&Enc{}, s).Bytes()
 	}, "graph"},
+	{"graph.SubgraphRemove/many-edges", func(f *Fix) []byte {
+		// several edges leaving the same nodes (ascending, descending, repeated), no node removed
+		s := graph.SubgraphRemove(f.G1, nil, []graph.Edge{{Node: 0, Edge: 2}, {Node: 0, Edge: 0}, {Node: 2, Edge: 0}, {Node: 2, Edge: 2}, {Node: 2, Edge: 1}, {Node: 4, Edge: 1}, {Node: 0, Edge: 2}})
+		return graphEnc(&Enc{}, s).Bytes()
+	}, "graph"},
 	{"graphalg.PreOrder/PostOrder/Euler", func(f *Fix) []byte {
 		e := (&Enc{}).Is(graphalg.PreOrder(f.G1, 0)).Is(graphalg.PostOrder(f.G1, 4))
 		graphalg.Euler{Enter: func(n int) { e.I(n) }, Exit: func(n int) { e.I(-n - 1) }}.Visit(f.G1, 0)
